@@ -31,7 +31,7 @@ impl BlpJpeg {
             None
         } else {
             // Remove those bugged 2 bytes from the end
-            let header_size = self.header.len() - 2;
+            let header_size = self.header.len().saturating_sub(2);
             trace!(
                 "Getting JPEG with header size {} and body size {}",
                 header_size,
